@@ -9,6 +9,7 @@
 -/
 import Ctrmml.Proofs.MdsPitch
 import Ctrmml.Proofs.MdsBase
+import Ctrmml.Proofs.B64Slide
 namespace Ctrmml.MdsData
 open Ctrmml.MdsSpec
 
@@ -116,28 +117,68 @@ example : itemsOk [.value 15 15 1, .loop, .value 15 15 1, .value 15 10 6, .susta
 example : expandPsg (psgFinish ([PsgItem.value 15 15 1, .loop, .value 15 15 1, .value 10 10 1].foldl (psgItem Arith.rat) {}))
     = some { frames := [15, 15, 10], sustains := [], loopTo := some 1 } := by decide
 
-/-- PSG marks — with `C11_psg_frames` the full PSG clause modulo `SlideOK`: when the written
-size (frames + sustain marks, an upper bound of the number of bytes) is below 256, the frame
-index at which the independent reader sees each sustain mark, and the frame index its loop
-command jumps to, equal the number of frames written before the mark (`refSus`/`refLoop` count
-frames with the written lengths; the last `|` wins), and the whole expansion passes the spec
-check `psgMeets` (frames split by written lengths, every block of slide shape, marks at the
-written places).  This is what the former defect D20 violated.
-The size hypothesis is needed: the loop position is emitted as ONE byte without a range check,
-so a loop mark behind more than 255 bytes wraps (`@1 psg (15 14)x130 | 3 2` loops to byte 4) —
-known finding `psg:index-overflow`. -/
-theorem C11_psg_marks {α} (A : Arith α) (hA : SlideOK A) (items : List PsgItem)
+/-- PSG marks — with `C11_psg_frames` the full PSG clause modulo `SlideOK`, for EVERY definition
+`add_ins_psg` accepts (no size hypothesis any more): whenever the end of `add_ins_psg` (`psgEnd`:
+the range check of the loop position added by fix ff36345, then the end / loop command) returns
+bytes, the frame index at which the independent reader sees each sustain mark, and the frame
+index its loop command jumps to, equal the number of frames written before the mark
+(`refSus`/`refLoop` count frames with the written lengths; the last `|` wins), and the whole
+expansion passes the spec check `psgMeets` (frames split by written lengths, every block of
+slide shape, marks at the written places).  This is what the former defects D20 and
+`psg:index-overflow` violated. -/
+theorem C11_psg_marks {α} (A : Arith α) (hA : SlideOK A) (id : Nat) (items : List PsgItem)
+    (hok : itemsOk items false = true) (bytes : NBytes)
+    (h : psgEnd id (items.foldl (psgItem A) {}) = .ok bytes) :
+    ∃ e, expandPsg bytes = some e ∧
+      e.frames = items.flatMap (itemFrames A) ∧
+      e.sustains = refSus items 0 ∧ e.loopTo = refLoop items 0 none ∧
+      psgMeets items e = true := by
+  obtain ⟨hlp, rfl⟩ := (psgEnd_ok id _ bytes).mp h
+  exact psg_full_aux A hA items hok hlp
+
+example : itemsOk [.value 15 15 1, .loop, .value 15 15 1, .value 15 10 6, .sustain, .value 3 0 20] false = true ∧
+    (psgEnd 7 ([PsgItem.value 15 15 1, .loop, .value 15 15 1, .value 15 10 6, .sustain, .value 3 0 20].foldl (psgItem Arith.rat) {})).toOption
+      = some [0x10, 0x20, 0x11, 0x12, 0x13, 0x14, 0x15, 0x01, 0x4c, 0x6d, 0x6e, 0x4f, 0x02, 0x01] ∧
+    refLoop [.value 15 15 1, .loop, .value 15 15 1, .value 15 10 6, .sustain, .value 3 0 20] 0 none = some 1 ∧
+    refSus [.value 15 15 1, .loop, .value 15 15 1, .value 15 10 6, .sustain, .value 3 0 20] 0 = [8] := by decide +kernel
+
+/-- …and the check is exactly the byte limit: `add_ins_psg` throws (an InputError) only when the
+loop position — the number of envelope bytes in front of the last loop mark — is above 255, it
+never throws for a definition whose written size (frames + sustain marks, an upper bound of the
+number of bytes) is below 256, and when it does not throw it emits `psgFinish` with a loop
+position that fits the byte.  Before ff36345 the position was narrowed to a byte silently
+(`@1 psg (15 14)x130 | 3 2` compiled to the loop command `02 04`). -/
+theorem C11_psg_loop_checked {α} (A : Arith α) (hA : SlideOK A) (id : Nat) (items : List PsgItem)
+    (hok : itemsOk items false = true) :
+    (∀ e, psgEnd id (items.foldl (psgItem A) {}) = .error e →
+        255 < (items.foldl (psgItem A) {}).loopPos ∧ 255 < psgSize items ∧ ∃ msg, e = .input msg) ∧
+    (∀ bytes, psgEnd id (items.foldl (psgItem A) {}) = .ok bytes →
+        (items.foldl (psgItem A) {}).loopPos ≤ 255 ∧ bytes = psgFinish (items.foldl (psgItem A) {})) ∧
+    (psgSize items < 256 →
+        psgEnd id (items.foldl (psgItem A) {}) = .ok (psgFinish (items.foldl (psgItem A) {}))) := by
+  have hle := psg_loopPos_le A hA items hok
+  refine ⟨fun e h => ?_, fun bytes h => (psgEnd_ok id _ bytes).mp h, fun hfit => ?_⟩
+  · obtain ⟨h1, h2⟩ := psgEnd_error id _ e h
+    exact ⟨h1, by omega, h2⟩
+  · exact (psgEnd_ok id _ _).mpr ⟨by omega, rfl⟩
+
+/-- the witness of the former finding is rejected: 260 one-frame values, then the loop mark -/
+example : (match psgEnd 1 (((List.replicate 130 [PsgItem.value 15 15 1, .value 14 14 1]).flatten ++
+      [PsgItem.loop, PsgItem.value 3 3 1, PsgItem.value 2 2 1]).foldl (psgItem Arith.rat) {}) with
+    | .error _ => true | .ok _ => false) = true := by decide +kernel
+
+/-- the former statement of `C11_psg_marks` (written size below 256, bytes of `psgFinish`): a
+corollary -/
+theorem C11_psg_marks_fit {α} (A : Arith α) (hA : SlideOK A) (items : List PsgItem)
     (hok : itemsOk items false = true) (hfit : psgSize items < 256) :
     ∃ e, expandPsg (psgFinish (items.foldl (psgItem A) {})) = some e ∧
       e.frames = items.flatMap (itemFrames A) ∧
       e.sustains = refSus items 0 ∧ e.loopTo = refLoop items 0 none ∧
       psgMeets items e = true :=
-  psg_full_aux A hA items hok hfit
+  C11_psg_marks A hA 0 items hok _ ((C11_psg_loop_checked A hA 0 items hok).2.2 hfit)
 
 example : itemsOk [.value 15 15 1, .loop, .value 15 15 1, .value 15 10 6, .sustain, .value 3 0 20] false = true ∧
-    psgSize [.value 15 15 1, .loop, .value 15 15 1, .value 15 10 6, .sustain, .value 3 0 20] < 256 ∧
-    refLoop [.value 15 15 1, .loop, .value 15 15 1, .value 15 10 6, .sustain, .value 3 0 20] 0 none = some 1 ∧
-    refSus [.value 15 15 1, .loop, .value 15 15 1, .value 15 10 6, .sustain, .value 3 0 20] 0 = [8] := by decide
+    psgSize [.value 15 15 1, .loop, .value 15 15 1, .value 15 10 6, .sustain, .value 3 0 20] < 256 := by decide
 
 /-! ## pitch envelopes (every arithmetic `A`; no hypothesis on `A` is needed for these clauses)
 
@@ -177,11 +218,64 @@ theorem C11_pitch_node {α} (A : Arith α) (ue ex : Bool) (size : Nat) (i t : α
 /-- the limit is sharp and is an error, not a silent wrap: a node whose iterations do not fit
 behind the `size` bytes already there (more than 256 nodes in all) makes `add_pitch_node` throw —
 `nodeOf` never returns more iterations than fit, and it throws nothing but `invalid_argument`
-(only in the compact form with extended pitch allowed) and the too-long InputError. -/
+(only in the compact form with extended pitch allowed), the too-long InputError and (fix f788cbf)
+the too-steep InputError of `C11_pitch_step_checked`. -/
 theorem C11_pitch_node_limit {α} (A : Arith α) (ue ex : Bool) (size : Nat) (i t : α) (e : Option Int) :
     (∀ cs, nodeOf A ue ex size i t e = .ok cs → cs ≠ [] → size + nodeSize ex * cs.length ≤ nodeSize ex * 256) ∧
-    (∀ err, nodeOf A ue ex size i t e = .error err → err = .tooLong ∨ (err = .invalidArgument ∧ ue = true ∧ ex = false)) :=
+    (∀ err, nodeOf A ue ex size i t e = .error err →
+      err = .tooLong ∨ err = .tooSteep ∨ (err = .invalidArgument ∧ ue = true ∧ ex = false)) :=
   ⟨fun cs h => (nodeOf_spec A ue ex size i t e cs h).2.2.2.2.2, fun err h => nodeChunks_error A ue ex t _ _ _ i err h⟩
+
+/-- one iteration of `add_pitch_node`, with the range check of fix f788cbf: the per-frame step
+`d = trunc(((target - counter) / length) * 256)` is tested as computed, before it is narrowed:
+outside `int16_t` the node is an InputError (`tooSteep`) in every form — it used to be converted
+to `int16_t` (undefined behaviour; g++ kept the low 16 bits, `-127>127:1` slid downwards) —
+and when the iteration is accepted the stored step IS `d` (its signed-byte cap under
+`noextpitch` in the compact form), the start is the counter in 8.8, the iteration lasts
+`min 255 length` frames and the loop continues with the counter advanced by the stored step.
+So no accepted node carries a wrapped step: with `C11_pitch_node` every field of every iteration
+is the value the code computed. -/
+theorem C11_pitch_step_checked {α} (A : Arith α) (ue ex : Bool) (target : α) (fuel size : Nat) (length : Int) (counter : α)
+    (hl : 0 < length) :
+    ((chunkDelta A target counter length < -32768 ∨ 32767 < chunkDelta A target counter length) →
+      nodeChunks A ue ex target (fuel + 1) size length counter = .error .tooSteep) ∧
+    (∀ c cs, nodeChunks A ue ex target (fuel + 1) size length counter = .ok (c :: cs) →
+      -32768 ≤ chunkDelta A target counter length ∧ chunkDelta A target counter length ≤ 32767 ∧
+      c.delta = (if ex || ue then chunkDelta A target counter length else clamp8 (chunkDelta A target counter length)) ∧
+      c.start = chunkStart A counter ∧ c.len = (if length > 255 then 255 else length) ∧
+      nodeChunks A ue ex target fuel (size + nodeSize ex) (length - c.len)
+        (A.add counter (A.ofInt (Int.tdiv (c.delta * c.len) 256))) = .ok cs) := by
+  have hl' : ¬ length ≤ 0 := by omega
+  have e1 : Tables.mdsdrv_pitch_step_min = -32768 := rfl
+  have e2 : Tables.mdsdrv_pitch_step_max = 32767 := rfl
+  refine ⟨fun hd => ?_, fun c cs h => ?_⟩
+  · unfold nodeChunks
+    simp only [hl', if_false]
+    rw [if_pos]
+    rw [e1, e2]
+    rcases hd with hd | hd <;> simp [hd]
+  · unfold nodeChunks at h
+    simp only [hl', if_false] at h
+    split at h
+    · cases h
+    · rename_i hst
+      have hr := chunkDelta_checked _ hst
+      split at h
+      · cases h
+      · split at h
+        · cases h
+        · simp only [map_eq_ok] at h
+          obtain ⟨cs', h1, h2⟩ := h
+          simp only [List.cons.injEq] at h2
+          obtain ⟨rfl, rfl⟩ := h2
+          refine ⟨hr.1, hr.2, ?_, rfl, rfl, h1⟩
+          cases ex <;> cases ue <;> simp
+
+example : nodeOf Arith.rat true false 0 (Arith.rat.ofDec true 127 0) (Arith.rat.ofDec false 127 0) (some 1) = .error .tooSteep ∧
+    nodeOf Arith.rat false false 0 (Arith.rat.ofDec false 100 0) (Arith.rat.ofDec true 100 0) (some 1) = .error .tooSteep ∧
+    chunkDelta Arith.rat (Arith.rat.ofDec false 127 0) (Arith.rat.ofDec true 127 0) 1 = 65024 ∧
+    nodeOf Arith.rat true true 0 (Arith.rat.ofDec true 64 0) (Arith.rat.ofDec false 63 0) (some 1) = .ok [⟨-16384, 32512, 1⟩] := by
+  decide +kernel
 
 /-- the vibrato macro `Vbase:depth:rate` is a loop mark followed by the three nodes
 `base>top:rate`, `top>-top:2*rate`, `-top>base:rate` (top = depth/2 + base), each value
@@ -288,6 +382,9 @@ theorem C11_pitch_loop_checked {α} (A : Arith α) (st st' : State) (id : Nat) (
   unfold addPitch at h
   have hte : tag.isEmpty = false := by cases tag <;> simp_all
   simp only [hte, Bool.false_eq_true, if_false] at h
+  by_cases hg : tag.any outsideStrtod = true
+  · rw [if_pos hg] at h; cases h
+  rw [if_neg hg] at h
   cases h1 : pitchTokens A st.useExt false tag [] (-1) with
   | ok r =>
     obtain ⟨env, lp⟩ := r
@@ -305,6 +402,7 @@ theorem C11_pitch_loop_checked {α} (A : Arith α) (st st' : State) (id : Nat) (
     cases e with
     | input => simp [h1] at h
     | tooLong => simp [h1] at h
+    | tooSteep => simp [h1] at h
     | invalidArgument =>
       right
       refine ⟨rfl, ?_⟩
@@ -323,21 +421,22 @@ theorem C11_pitch_loop_checked {α} (A : Arith α) (st st' : State) (id : Nat) (
 
 /-- which form: under `noextpitch` (`ue = false`) the compact form never throws
 `invalid_argument` — a step that does not fit is capped to a signed byte (`clamp8`); neither
-does the extended form; the only other exception of `add_pitch_node` is the too-long
-InputError; and when the compact form succeeds with extended pitch allowed, every step fits a
+does the extended form; the only other exceptions of `add_pitch_node` are the too-long and the
+too-steep InputError; and when the compact form succeeds with extended pitch allowed, every step fits a
 signed byte and the iterations are exactly those of the extended form behind the same number of
 nodes `n` (it fails, by definition of `nodeChunks`, at the first iteration whose step
 `chunkDelta` is outside -128..127, and `addPitch` then compiles the extended form). -/
 theorem C11_pitch_form {α} (A : Arith α) (target : α) (fuel n : Nat) (length : Int) (counter : α) :
-    (∀ size e, nodeChunks A false false target fuel size length counter = .error e → e = .tooLong) ∧
-    (∀ ue size e, nodeChunks A ue true target fuel size length counter = .error e → e = .tooLong) ∧
+    (∀ size e, nodeChunks A false false target fuel size length counter = .error e → e = .tooLong ∨ e = .tooSteep) ∧
+    (∀ ue size e, nodeChunks A ue true target fuel size length counter = .error e → e = .tooLong ∨ e = .tooSteep) ∧
     (∀ cs, nodeChunks A true false target fuel (nodeSize false * n) length counter = .ok cs →
         nodeChunks A true true target fuel (nodeSize true * n) length counter = .ok cs ∧
         ∀ c ∈ cs, -128 ≤ c.delta ∧ c.delta ≤ 127) := by
   refine ⟨?_, fun ue size e h => C11_pitch_ext_total A ue target fuel size length counter e h, ?_⟩
   · intro size e h
-    rcases nodeChunks_error A false false target fuel size length counter e h with h | ⟨_, h, _⟩
-    · exact h
+    rcases nodeChunks_error A false false target fuel size length counter e h with h | h | ⟨_, h, _⟩
+    · exact Or.inl h
+    · exact Or.inr h
     · cases h
   · intro cs h
     refine ⟨?_, fun c hc => (nodeChunks_range A true false target fuel _ length counter cs h c hc).2.2.2.2 rfl⟩
@@ -349,6 +448,10 @@ theorem C11_pitch_form {α} (A : Arith α) (target : α) (fuel n : Nat) (length 
       · simpa [hl] using h
       · simp only [hl, if_false, Bool.not_false, Bool.not_true, Bool.true_and, Bool.false_and, Bool.false_eq_true,
           if_true] at h ⊢
+        split at h
+        · cases h
+        rename_i hst
+        rw [if_neg hst]
         split at h
         · cases h
         · have e4 : nodeSize false * n + nodeSize false = nodeSize false * (n + 1) := by rw [Nat.mul_add, Nat.mul_one]
@@ -372,26 +475,149 @@ def writtenItem {α} (A : Arith α) : PitchItem → PItem α
       (l.map Int.ofNat)
   | .loop => .loop
 
-/-- The full statement of the PSG and pitch clauses for the arithmetic the C++ runs (binary64),
-NOT proved as such.  What is proved instead: `C11_psg_frames` + `C11_psg_marks` give the PSG
-conjunct for every arithmetic with `SlideOK` and written size < 256; `C11_pitch_node`,
-`C11_pitch_node_limit`, `C11_pitch_vibrato`, `C11_pitch_decode_compact/_extended`, `C11_pitch_form` give the
-structural pitch clauses for every arithmetic.  Missing: `SlideOK Arith.float` (finite; checked exhaustively
-against the real code every thorough run), and for pitch the comparison of the model's
-`chunkStart`/`chunkDelta` in binary64 with the exact decimals (`pitchMeets`: start = ⌊256·initial⌋,
-error below one step per frame) — evaluated by the judge on the real bytes.  The statement is
-in fact FALSE at known findings: a PSG loop position above 255 wraps (`psg:index-overflow`), a
-pitch loop mark behind the 256th node wraps (what is left of `pitch:index-overflow` now that a
-257th node is an InputError), and a per-frame step outside int16 wraps (`pitch:step-overflow`). -/
-def C11_full_statement : Prop :=
-  (∀ items : List PsgItem, itemsOk items false = true →
-    ∃ e, expandPsg (psgFinish (items.foldl (psgItem Arith.float) {})) = some e ∧ psgMeets items e = true) ∧
+/-! ## the slide hypothesis for IEEE binary64, and the full statement -/
+
+/-- `SlideOK` for IEEE-754 binary64: every single PSG slide `initial>target:length` with levels
+0..15 and 1..255 frames, computed as `add_ins_psg` does in `double` — `delta = (double)(target -
+initial) / (length - 1)` (one correctly rounded division), `counter = initial + 0.5`, then per
+frame `(int)counter` and `counter += delta` (one correctly rounded addition each), the last frame
+forced to the target — has the slide shape: `length` frames, the first at the initial level, the
+last at the target, monotone, all between the two levels.  `Arith.b64` is binary64 written out in
+Lean (`Model/MdsData: B64`, round to nearest even by `B64.round`).  Proof (`Proofs/B64Slide`):
+all values are multiples of 2^-60; a rounded sum in [1/2, 16) is within 2^11·2^-60 of the exact sum
+(`add_fix_pos/neg`, for ALL operands, by reasoning about `B64.round`); the 31·254 steps
+`fl(±d/m)` and the 16 start values are evaluated by the kernel (`stepTable`, `startTable`: the
+finite tables are exactly the quantifier); by induction over the frames the counter stays within
+`k·2^11·2^-60` of `initial + 0.5 + k·delta`, far from the next integer where it matters.
+This discharges the hypothesis `hA` of `C11_psg_frames`, `C11_psg_marks`, `C11_psg_loop_checked`
+for the arithmetic the C++ runs, up to the identification of `Arith.b64` with the hardware
+`double` (trusted; compared on every request of every run by the driver, and `Arith.float` is
+compared with the C++). -/
+theorem C11_psg_slide_binary64 : SlideOK Arith.b64 := B64.slideOK_b64
+
+/-- the slide of the evidence file where binary64 and exact arithmetic differ (`0>1:7`: frame 3 is
+0 in binary64, 1 in exact arithmetic), and a long one -/
+example : slideOf Arith.b64 0 1 7 = [0, 0, 0, 0, 1, 1, 1] ∧ slideOf Arith.rat 0 1 7 = [0, 0, 0, 1, 1, 1, 1] ∧
+    slideShape 15 0 255 (slideOf Arith.b64 15 0 255) = true := by decide +kernel
+
+/-- the PSG clause of the property for binary64, with no hypothesis left: every definition built
+from in-range values, sustain marks (each after a value) and loop marks that `add_ins_psg`
+accepts is read back by the independent reader as the written frames with the marks at the
+written places; it is rejected only when its loop mark lies behind more than 255 envelope bytes. -/
+theorem C11_psg_binary64 (id : Nat) (items : List PsgItem) (hok : itemsOk items false = true) :
+    (∀ bytes, psgEnd id (items.foldl (psgItem Arith.b64) {}) = .ok bytes →
+      ∃ e, expandPsg bytes = some e ∧ e.frames = items.flatMap (itemFrames Arith.b64) ∧
+        e.sustains = refSus items 0 ∧ e.loopTo = refLoop items 0 none ∧ psgMeets items e = true) ∧
+    (∀ err, psgEnd id (items.foldl (psgItem Arith.b64) {}) = .error err → 255 < psgSize items) :=
+  ⟨fun bytes h => C11_psg_marks Arith.b64 C11_psg_slide_binary64 id items hok bytes h,
+   fun err h => ((C11_psg_loop_checked Arith.b64 C11_psg_slide_binary64 id items hok).1 err h).2.1⟩
+
+example : itemsOk [.value 0 1 7, .sustain, .loop, .value 15 0 255] false = true := by decide
+
+/-- what the independent reader returns for an accepted pitch envelope (`C11_pitch_decode_compact`
+/ `_extended`): the iterations `cs` as nodes; without a loop mark the last node holds for ever -/
+def decodedEnv (ex : Bool) (cs : List RawChunk) (lp : Int) : PitchEnv :=
+  if ex then
+    if lp = -1 then
+      { chunks := extChunks 0 cs.dropLast ++
+          (cs.getLast?.map fun c => { toChunk c (some (cs.length - 1)) with frames := none }).toList, loopTo := none }
+    else
+      { chunks := extChunks 0 cs.dropLast ++ (cs.getLast?.map fun c => toChunk c (some lp.toNat)).toList,
+        loopTo := some lp.toNat }
+  else
+    if lp = -1 then
+      { chunks := cs.dropLast.map (toChunk · none) ++
+          (cs.getLast?.map fun c => { toChunk c none with frames := none }).toList, loopTo := none }
+    else { chunks := cs.map (toChunk · none), loopTo := some lp.toNat }
+
+/-- the full statement of the PSG and pitch clauses over an arithmetic `A`, for the code as
+repaired (ff36345, f788cbf, 54bd60e, 1772c47): every accepted PSG definition meets the written
+definition; every accepted pitch envelope (compact form, or extended form after the compact pass
+threw `invalid_argument`; loop position at most 255, which `addPitch` checks —
+`C11_pitch_loop_checked`) is read back by the independent reader to nodes that meet the written
+decimals (`pitchMeets`: start = ⌊256·initial⌋ capped, written length, error below one step per
+frame). -/
+def C11_full_for {α} (A : Arith α) : Prop :=
+  (∀ (id : Nat) (items : List PsgItem) (bytes : NBytes), itemsOk items false = true →
+    psgEnd id (items.foldl (psgItem A) {}) = .ok bytes →
+    ∃ e, expandPsg bytes = some e ∧ psgMeets items e = true) ∧
   (∀ (noext : Bool) (items : List PitchItem) (cs : List RawChunk) (lp : Int),
-    (envChunks Arith.float (!noext) false (items.map (writtenItem Arith.float)) [] (-1) = .ok (cs, lp) → cs ≠ [] →
+    (envChunks A (!noext) false (items.map (writtenItem A)) [] (-1) = .ok (cs, lp) → cs ≠ [] → lp ≤ 255 →
       ∃ e, runPitchEnv false (pitchFinish (render false cs) lp) = some e ∧ pitchMeets noext items e = true) ∧
-    (envChunks Arith.float (!noext) false (items.map (writtenItem Arith.float)) [] (-1) = .error .invalidArgument →
-      envChunks Arith.float (!noext) true (items.map (writtenItem Arith.float)) [] (-1) = .ok (cs, lp) → cs ≠ [] →
+    (envChunks A (!noext) false (items.map (writtenItem A)) [] (-1) = .error .invalidArgument →
+      envChunks A (!noext) true (items.map (writtenItem A)) [] (-1) = .ok (cs, lp) → cs ≠ [] → lp ≤ 255 →
       ∃ e, runPitchEnv true (pitchFinishExt (render true cs) lp) = some e ∧ pitchMeets noext items e = true))
+
+/-- the full statement for the arithmetic the C++ runs (hardware binary64 = Lean `Float`, opaque
+to the kernel): NOT a theorem as such — see `C11_full_partial` for what is proved. -/
+def C11_full_statement : Prop := C11_full_for Arith.float
+
+/-- residual hypothesis 2 of `C11_full_partial`, the numerical content of the pitch clause: the
+iterations `add_pitch_node` computes in the arithmetic `A` from the written decimals, read as
+nodes, meet the written definition.  Decided per generated definition by the judge (`pitchMeets`
+on the real bytes); not proved for any arithmetic. -/
+def PitchExact {α} (A : Arith α) : Prop :=
+  ∀ (noext ex : Bool) (items : List PitchItem) (cs : List RawChunk) (lp : Int),
+    envChunks A (!noext) ex (items.map (writtenItem A)) [] (-1) = .ok (cs, lp) → cs ≠ [] → lp ≤ 255 →
+    pitchMeets noext items (decodedEnv ex cs lp) = true
+
+/-- read-back of an accepted pitch envelope in either form, as one equation -/
+theorem C11_pitch_readback {α} (A : Arith α) (ue ex : Bool) (items : List (PItem α)) (cs : List RawChunk) (lp : Int)
+    (h : envChunks A ue ex items [] (-1) = .ok (cs, lp)) (hlp : lp ≤ 255) (hne : cs ≠ []) :
+    runPitchEnv ex (if ex then pitchFinishExt (render true cs) lp else pitchFinish (render false cs) lp) =
+      some (decodedEnv ex cs lp) := by
+  cases ex with
+  | false =>
+    obtain ⟨_, hd⟩ := C11_pitch_decode_compact A ue items cs lp h (by omega) hne
+    simp only [Bool.false_eq_true, if_false, decodedEnv]
+    rcases hd with ⟨h1, h2⟩ | ⟨k, h1, _, h2⟩
+    · rw [if_pos h1]; exact h2
+    · rw [if_neg (by omega)]
+      have : lp.toNat = k := by omega
+      rw [this]; exact h2
+  | true =>
+    obtain ⟨_, hd⟩ := C11_pitch_decode_extended A ue items cs lp h (by omega) hne
+    simp only [if_true, decodedEnv]
+    rcases hd with ⟨h1, h2⟩ | ⟨k, h1, _, h2⟩
+    · rw [if_pos h1]; exact h2
+    · rw [if_neg (by omega)]
+      have : lp.toNat = k := by omega
+      rw [this]; exact h2
+
+/-- The full statement from the pieces, for EVERY arithmetic, with exactly two residual
+hypotheses about the arithmetic: (1) `SlideOK A` — single PSG slides have the slide shape; a
+theorem for binary64 written out in Lean (`C11_psg_slide_binary64`); (2) `PitchExact A` — the
+pitch iterations meet the written decimals; oracle-only.  Everything else of the statement is
+proved: merging, the 15-frame cap, marks, the end commands and both limits of the PSG compiler;
+node splitting, both pitch forms, loop marks, the 256-node limit and the step limit of the pitch
+compiler, and the read-back by the independent readers.
+`C11_full_statement` is `C11_full_for Arith.float`; instantiating this theorem there needs (1)
+and (2) for the hardware arithmetic, i.e. for (1) the identification of `Arith.float` with
+`Arith.b64` (trusted base, compared by the driver on every request). -/
+theorem C11_full_partial {α} (A : Arith α) (hS : SlideOK A) (hP : PitchExact A) : C11_full_for A := by
+  refine ⟨fun id items bytes hok h => ?_, fun noext items cs lp => ⟨fun h hne hlp => ?_, fun _ h hne hlp => ?_⟩⟩
+  · obtain ⟨e, h1, _, _, _, h5⟩ := C11_psg_marks A hS id items hok bytes h
+    exact ⟨e, h1, h5⟩
+  · have hr := C11_pitch_readback A (!noext) false _ cs lp h hlp hne
+    simp only [Bool.false_eq_true, if_false] at hr
+    exact ⟨_, hr, hP noext false items cs lp h hne hlp⟩
+  · have hr := C11_pitch_readback A (!noext) true _ cs lp h hlp hne
+    simp only [if_true] at hr
+    exact ⟨_, hr, hP noext true items cs lp h hne hlp⟩
+
+/-- for binary64 written out in Lean only the pitch hypothesis is left -/
+theorem C11_full_binary64_partial (hP : PitchExact Arith.b64) : C11_full_for Arith.b64 :=
+  C11_full_partial Arith.b64 C11_psg_slide_binary64 hP
+
+/-- the hypotheses of `C11_full_partial` are met together by a concrete, non-trivial piece: the
+slide hypothesis holds for `Arith.b64`, and on a concrete envelope (a slide of 510 frames = two
+iterations, a loop mark, a one-frame node) the pitch hypothesis' conclusion holds there -/
+example : SlideOK Arith.b64 ∧
+    (∃ cs lp, envChunks Arith.b64 true false ([PitchItem.node ⟨0, 0⟩ ⟨3, 0⟩ (some 510), .loop, .node ⟨-25, 1⟩ ⟨-25, 1⟩ none].map
+        (writtenItem Arith.b64)) [] (-1) = .ok (cs, lp) ∧ cs.length = 3 ∧ lp = 2 ∧
+      pitchMeets false [PitchItem.node ⟨0, 0⟩ ⟨3, 0⟩ (some 510), .loop, .node ⟨-25, 1⟩ ⟨-25, 1⟩ none] (decodedEnv false cs lp) = true) := by
+  refine ⟨C11_psg_slide_binary64, [⟨0, 1, 255⟩, ⟨0, 3, 255⟩, ⟨-640, 0, 1⟩], 2, ?_⟩
+  decide +kernel
 
 /-- `SlideOK` in exact arithmetic, by kernel evaluation of the model's own slide loop over `Q`:
 every slide between any two levels 0..15 of 1..10 frames has the slide shape (2560 of the
